@@ -100,7 +100,8 @@ def layout(toks, directive, style, rnd, filename="f.c", marker_p=0.12):
         elif style in ("random", "marked"):
             emit(rnd.choice([" ", " ", "  ", "\n", "\t", " \t ", "\n\n   ", "\n  ", "\n  \n", "\n\t\n\t", " \n \n ", "\n   \n\t \n  "]))
         elif style == "minimal":
-            if not rlex.adjacent_ok(prev, t):
+            # pairwise longest-match is not enough for periods: '.' '.' '.' written without blanks is the one token '...'
+            if not rlex.adjacent_ok(prev, t) or (prev == "." and t == "."):
                 emit(" ")
         pos.append((fname, line, col))
         emit(t)
